@@ -5,10 +5,11 @@
 wt="$1"; src="$2"; sid="$3"; crc="$4"
 cd "$wt" || exit 2
 git checkout -q -- . 
-/venv/bin/python "$src/demo.py" >/dev/null 2>&1; clean=$?
+rundemo() { if [ -f "$src/demo.sh" ]; then sh "$src/demo.sh" >/dev/null 2>&1; else /venv/bin/python "$src/demo.py" >/dev/null 2>&1; fi; }
+rundemo; clean=$?
 git apply "$src/patch.diff" || exit 2
 /venv/bin/python setup.py -q build_ext --inplace >/dev/null 2>&1; rm -rf build
-/venv/bin/python "$src/demo.py" >/dev/null 2>&1; patched=$?
+rundemo; patched=$?
 res=$(/venv/bin/python -m pytest -q -p no:cacheprovider -n 8 --timeout=900 2>&1 | tail -1)
 git checkout -q -- .
 /venv/bin/python setup.py -q build_ext --inplace >/dev/null 2>&1; rm -rf build
@@ -16,7 +17,7 @@ echo "$sid: demo clean=$clean patched=$patched pytest: $res"
 case "$res" in *"2 failed, 398 passed"*) ok=1;; *) ok=0;; esac
 if [ "$clean" = 0 ] && [ "$patched" != 0 ] && [ "$ok" = 1 ]; then
   mkdir -p /verif/seeded/$sid
-  cp "$src/patch.diff" "$src/demo.py" /verif/seeded/$sid/
+  cp "$src/patch.diff" /verif/seeded/$sid/; cp "$src"/demo.* /verif/seeded/$sid/
   /venv/bin/python - "$src/meta.json" "/verif/seeded/$sid/meta.json" "$res" "$crc" <<'PY'
 import json, sys
 m = json.load(open(sys.argv[1]))
